@@ -99,8 +99,9 @@ namespace foonathan
 
                 auto fence  = detail::debug_fence_size;
                 auto offset = detail::align_offset(stack.top() + fence, alignment);
-                if (!stack.top()
-                    || (fence + offset + size + fence > std::size_t(block_end(cur_) - stack.top())))
+                // size first: the sum must not overflow for huge sizes
+                if (!stack.top() || size > std::size_t(block_end(cur_) - stack.top())
+                    || fence + offset + fence > std::size_t(block_end(cur_) - stack.top()) - size)
                     FOONATHAN_THROW(out_of_fixed_memory(info(), size));
                 return stack.allocate_unchecked(size, offset);
             }
